@@ -1,14 +1,966 @@
-(* Proofs for C11 (Model/JetLift.v, linearisations of Model/Solver.v). *)
-From Coq Require Import List Arith Lia Bool ZArith QArith Qcanon Field Ring.
-From PD Require Import Base.Field Base.Matrix Model.Poly Base.Series Spec.ODESeries Model.Jet Model.JetLift.
+(* Proofs for C11 (Model/JetLift.v, linearisations of Model/Solver.v).
+
+   Part 1  T11.2 range-check reflection; the lift raises exactly outside the range
+   Part 2  T11.3 residual_from_ode: value x_k - f, lift = lift of both parts
+           T11.4 stacked residuals evaluate each part on its own prefix
+   Part 3  T11.5 linearisation: value and Jacobian structure for the three
+           factorisations; diff_poly is the directional derivative
+   Part 4  T11.1 the lift of a polynomial function returns the iterated total
+           time derivatives D_t^l f at the supplied Taylor coefficients *)
+From Coq Require Import List Arith Lia Bool ZArith QArith Qcanon Field Ring Setoid Morphisms.
+From PD Require Import Base.Field Base.Matrix Base.Solve Model.Poly Base.Series Spec.ODESeries
+  Model.Jet Model.JetLift Model.Gauss Model.Prior Model.Solver Proofs.JetProofs.
 Import ListNotations.
 Local Close Scope Qc_scope.
 Local Close Scope Q_scope.
 Local Open Scope nat_scope.
 
+(* ============================================= Part 1: the range check *)
+(* T11.2 *)
 Lemma P_lift_accepts_iff (k ncoords : nat) (lift_by : Z) :
   lift_accepts k ncoords lift_by = true <->
   (0 <= lift_by /\ lift_by <= Z.of_nat ncoords - Z.of_nat k)%Z.
 Proof.
   unfold lift_accepts. rewrite andb_true_iff, !Z.leb_le. tauto.
 Qed.
+
+Section LiftProofs.
+  Context {F : Type} `{FL : FieldLaws F}.
+  Local Open Scope F_scope.
+  Add Field FLift : fth.
+  Add Ring FSringL : fs_ring_theory.
+  Local Notation fs := (@fs F).
+  Local Notation series := (@series F).
+  Local Notation poly := (@poly F).
+  Local Notation tvec := (list F).
+  Local Notation jetfun := (@jetfun F).
+  Local Infix "==" := fs_eq (at level 70).
+
+  (* what args_aj hands to jet inside lift *)
+  Lemma args_aj_lengths (tcs : list tvec) k t :
+    1 <= k -> k <= length tcs ->
+    let '((pu, pt), (su, st)) := args_aj tcs k t in
+    length pu = k /\ length su = k /\
+    (forall s, In s su -> length s = (length tcs - k)%nat) /\
+    length (nth 0 su []) = (length tcs - k)%nat /\
+    length st = Nat.max 1 (length tcs - k).
+  Proof.
+    intros Hk HL. unfold args_aj. cbv zeta.
+    assert (Hs : forall j, j < k -> length (pyslice j (k - 1 - j) (tl tcs)) = (length tcs - k)%nat).
+    { intros j Hj. rewrite pyslice_length, length_tl. lia. }
+    repeat split.
+    - rewrite firstn_length. lia.
+    - rewrite map_length, seq_length. reflexivity.
+    - intros s Hs'. apply in_map_iff in Hs'. destruct Hs' as [j [<- Hj]]. apply in_seq in Hj.
+      apply Hs. lia.
+    - rewrite nth_map_seq by lia. apply Hs. lia.
+    - cbn [length]. rewrite repeat_length. rewrite nth_map_seq by lia. rewrite Hs by lia.
+      destruct (length tcs - k)%nat; simpl; lia.
+  Qed.
+
+  (* inside the admissible range the lift returns a value; outside it raises *)
+  Theorem lift_some_iff (jf : jetfun) (lift_by : Z) (coords : list tvec) (t : F) :
+    1 <= jf_k jf ->
+    (lift jf lift_by coords t <> None <->
+     (0 <= lift_by /\ lift_by <= Z.of_nat (length coords) - Z.of_nat (jf_k jf))%Z).
+  Proof.
+    intro Hk. rewrite <- P_lift_accepts_iff. unfold lift.
+    destruct (lift_accepts (jf_k jf) (length coords) lift_by) eqn:Hacc; [|split; congruence].
+    split; [reflexivity|]. intros _.
+    apply P_lift_accepts_iff in Hacc. destruct Hacc as [H0 H1].
+    destruct (jf_k jf) as [|k'] eqn:Ek; [lia|]. rewrite <- Ek in *.
+    set (m := Z.to_nat lift_by).
+    set (tcs := firstn (jf_k jf + m) coords).
+    assert (HLt : length tcs = (jf_k jf + m)%nat).
+    { unfold tcs. rewrite firstn_length. unfold m. lia. }
+    pose proof (args_aj_lengths tcs (jf_k jf) t Hk ltac:(lia)) as Hargs.
+    destruct (args_aj tcs (jf_k jf) t) as [[pu pt] [su st]].
+    destruct Hargs as [Hpu [Hsu [Hall [H0len Hst]]]].
+    destruct (nth 0 su []) as [|x r] eqn:E0; [discriminate|].
+    unfold run_jet.
+    assert (Hm : (length tcs - jf_k jf)%nat = m) by lia.
+    assert (Hm1 : 1 <= m) by (rewrite <- Hm, <- H0len; simpl; lia).
+    assert (Hchk : forallb (fun s => Nat.eqb (length s) (length st)) su
+                   && Nat.eqb (length pu) (length su) = true).
+    { apply andb_true_iff. split.
+      - apply forallb_forall. intros s Hs. apply Nat.eqb_eq. rewrite (Hall s Hs), Hst. lia.
+      - apply Nat.eqb_eq. lia. }
+    rewrite Hchk. discriminate.
+  Qed.
+
+  (* ============================ Part 2: residual_from_ode and stacks *)
+  Lemma map_zipw {A B C D} (g : C -> D) (h : A -> B -> C) l1 l2 :
+    map g (zipw h l1 l2) = zipw (fun x y => g (h x y)) l1 l2.
+  Proof.
+    revert l2. induction l1 as [|x l1 IH]; intros [|y l2]; simpl; try reflexivity.
+    rewrite IH. reflexivity.
+  Qed.
+  Lemma zipw_map_l {A A' B C} (h : A' -> B -> C) (g : A -> A') l1 l2 :
+    zipw h (map g l1) l2 = zipw (fun x y => h (g x) y) l1 l2.
+  Proof.
+    revert l2. induction l1 as [|x l1 IH]; intros [|y l2]; simpl; try reflexivity.
+    rewrite IH. reflexivity.
+  Qed.
+  Lemma zipw_map_r {A B B' C} (h : A -> B' -> C) (g : B -> B') l1 l2 :
+    zipw h l1 (map g l2) = zipw (fun x y => h x (g y)) l1 l2.
+  Proof.
+    revert l2. induction l1 as [|x l1 IH]; intros [|y l2]; simpl; try reflexivity.
+    rewrite IH. reflexivity.
+  Qed.
+  Lemma zipw_ext {A B C} (h h' : A -> B -> C) l1 l2 :
+    (forall x y, In x l1 -> In y l2 -> h x y = h' x y) -> zipw h l1 l2 = zipw h' l1 l2.
+  Proof.
+    revert l2. induction l1 as [|x l1 IH]; intros [|y l2] E; simpl; try reflexivity.
+    rewrite E by (left; reflexivity). rewrite IH; [reflexivity|].
+    intros; apply E; right; assumption.
+  Qed.
+
+  (* the first d entries of a vector, as the model reads them *)
+  Definition vhead (d : nat) (x : tvec) : tvec := map (fun b => vget x b) (seq 0 d).
+
+  Lemma flat_map_length_const {A B} (g : A -> list B) (l : list A) n :
+    (forall x, length (g x) = n) -> length (flat_map g l) = (length l * n)%nat.
+  Proof.
+    intro Hg. induction l as [|x l IH]; simpl; [reflexivity|].
+    rewrite app_length, Hg, IH. lia.
+  Qed.
+
+  Lemma firstn_snoc_nth {A} (l : list A) k d : k < length l -> firstn (S k) l = firstn k l ++ [nth k l d].
+  Proof.
+    revert k. induction l as [|x l IH]; intros k Hk; simpl in Hk; [lia|].
+    destruct k as [|k]; [reflexivity|]. simpl. f_equal. apply IH. lia.
+  Qed.
+
+  (* the plain environment of k+1 coordinates splits into the ODE's inputs,
+     the top coordinate and t *)
+  Lemma plain_env_split d (coords : list tvec) k t :
+    length coords = S k ->
+    plain_env d coords t
+    = (flat_map (fun p => map (fun b => [vget p b]) (seq 0 d)) (firstn k coords))
+      ++ map (fun b => [vget (nth k coords []) b]) (seq 0 d) ++ [[t]].
+  Proof.
+    intro HL. unfold plain_env.
+    rewrite <- (firstn_all coords) at 1. rewrite HL.
+    rewrite (firstn_snoc_nth coords k []) by lia.
+    rewrite flat_map_app. simpl flat_map. rewrite app_nil_r, <- app_assoc. reflexivity.
+  Qed.
+
+  Lemma skipn_app_exact {A} (X R : list A) n : length X = n -> skipn n (X ++ R) = R.
+  Proof. intros <-. rewrite skipn_app, Nat.sub_diag, skipn_all. reflexivity. Qed.
+  Lemma firstn_app_exact {A} (X R : list A) n : length X = n -> firstn n (X ++ R) = X.
+  Proof. intros <-. rewrite firstn_app, Nat.sub_diag, firstn_all. simpl. apply app_nil_r. Qed.
+
+  Lemma sget_ssub1 (a b : series) : sget (ssub 1 a b) 0 = sget a 0 - sget b 0.
+  Proof. unfold ssub. rewrite sget_mkv by lia. reflexivity. Qed.
+
+  (* T11.3 (value): residual_from_ode(ode)(x_0..x_k, t) = x_k - f(x_0..x_{k-1}, t) *)
+  Theorem residual_from_ode_value (o : jetfun) (coords : list tvec) (t : F) :
+    length coords = S (jf_k o) ->
+    jf_eval (residual_from_ode_jf o) coords t
+    = Some (vsub_ (vhead (jf_d o) (nth (jf_k o) coords []))
+                  (run_plain o (firstn (jf_k o) coords) t)).
+  Proof.
+    intro HL. unfold jf_eval. simpl jf_k. rewrite HL, Nat.eqb_refl. f_equal.
+    unfold run_plain, residual_from_ode_jf. simpl jf_body. simpl jf_d.
+    set (k := jf_k o) in *. set (d := jf_d o).
+    rewrite (plain_env_split d coords k t HL).
+    set (X := flat_map (fun p => map (fun b => [vget p b]) (seq 0 d)) (firstn k coords)).
+    set (Y := map (fun b => [vget (nth k coords []) b]) (seq 0 d)).
+    assert (HX : length X = (k * d)%nat).
+    { unfold X. rewrite (flat_map_length_const _ _ d) by (intro; rewrite map_length, seq_length; reflexivity).
+      rewrite firstn_length. lia. }
+    assert (HY : length Y = d) by (unfold Y; rewrite map_length, seq_length; reflexivity).
+    rewrite (skipn_app_exact X _ _ HX).
+    rewrite (firstn_app_exact Y _ _ HY).
+    rewrite (firstn_app_exact X _ _ HX).
+    rewrite (app_assoc X Y).
+    rewrite (skipn_app_exact (X ++ Y) _ (d + k * d)) by (rewrite app_length, HX, HY; lia).
+    change (X ++ [[t]]) with (plain_env d (firstn k coords) t).
+    rewrite map_zipw. unfold vsub_, vhead, Y. rewrite !zipw_map_l, zipw_map_r.
+    apply zipw_ext. intros b y _ _. rewrite sget_ssub1. reflexivity.
+  Qed.
+
+  (* T11.4: a stack evaluates each part on its own prefix of the coefficients *)
+  Lemma all_some_spec {A} (l : list (option A)) (vals : list A) :
+    all_some l = Some vals <-> Forall2 (fun o x => o = Some x) l vals.
+  Proof.
+    revert vals. induction l as [|o l IH]; intro vals; simpl.
+    - split.
+      + intro E. inversion E. constructor.
+      + intro E. inversion E. reflexivity.
+    - destruct o as [x|].
+      + destruct (all_some l) as [xs|] eqn:Ex.
+        * split.
+          -- intro E. inversion E; subst. constructor; [reflexivity|]. apply IH. reflexivity.
+          -- intro E. inversion E as [|? y ? ys Hy Hys]; subst. inversion Hy; subst.
+             apply IH in Hys. inversion Hys; subst. reflexivity.
+        * split; [discriminate|].
+          intro E. inversion E as [|? y ? ys Hy Hys]; subst. apply IH in Hys. discriminate.
+      + split; [discriminate|]. intro E. inversion E as [|? y ? ys Hy Hys]. discriminate.
+  Qed.
+
+  Lemma Forall2_map_l {A A' B} (R : A' -> B -> Prop) (g : A -> A') l1 l2 :
+    Forall2 R (map g l1) l2 <-> Forall2 (fun x y => R (g x) y) l1 l2.
+  Proof.
+    revert l2. induction l1 as [|x l1 IH]; intro l2; simpl.
+    - split; intro E; inversion E; constructor.
+    - split; intro E; inversion E; subst; constructor; try assumption; apply IH; assumption.
+  Qed.
+
+  Theorem stack_evaluates_each_part_on_its_prefix
+          (parts : list (@resfun F)) (coords : list tvec) (t : F) (vals : list (list (list F))) :
+    stack_eval parts coords t = Some vals <->
+    Forall2 (fun r x => rf_eval r (firstn (rf_k r) coords) t = Some x) parts vals.
+  Proof. unfold stack_eval. rewrite all_some_spec. apply Forall2_map_l. Qed.
+
+  Lemma stack_k_upper (parts : list (@resfun F)) r : In r parts -> rf_k r <= stack_k parts.
+  Proof.
+    unfold stack_k. induction parts as [|p parts IH]; intros [].
+    - subst. simpl. lia.
+    - simpl. specialize (IH H0). lia.
+  Qed.
+  Lemma stack_k_attained (parts : list (@resfun F)) :
+    parts <> [] -> exists r, In r parts /\ rf_k r = stack_k parts.
+  Proof.
+    unfold stack_k. induction parts as [|p parts IH]; [congruence|]. intros _.
+    destruct parts as [|p' parts'].
+    - exists p. split; [left; reflexivity|]. simpl. lia.
+    - destruct IH as [r [Hr Er]]; [discriminate|].
+      simpl fold_right in *. simpl map in *.
+      destruct (Nat.max_spec (rf_k p) (Nat.max (rf_k p') (fold_right Nat.max 0%nat (map rf_k parts'))))
+        as [[_ E]|[_ E]]; rewrite E.
+      + exists r. split; [right; exact Hr|exact Er].
+      + exists p. split; [left; reflexivity|reflexivity].
+  Qed.
+
+  (* ===================================== Part 3: linearisation (T11.5) *)
+  Local Notation mat := (@mat F).
+  Local Notation normal := (@normal F).
+  Local Notation cond := (@cond F).
+
+  Lemma vget_vones n i : i < n -> vget (vones n) i = (1 : F).
+  Proof. intro Hi. unfold vones. rewrite vget_mkv by exact Hi. reflexivity. Qed.
+
+  (* the conditional mean A x + b of a conditional built by from_linop_and_noise *)
+  Lemma c_apply_from_linop nin nout c (A : mat) (noise : normal) (x : mat) r a :
+    r < nout -> a < c ->
+    mget (n_mean (c_apply nin nout c (from_linop_and_noise nin nout A noise) x)) r a
+    = vsum nin (fun l => mget A r l * mget x l a) + mget (n_mean noise) r a.
+  Proof.
+    intros Hr Ha. unfold c_apply, from_linop_and_noise. simpl n_mean. simpl c_A. simpl c_b.
+    simpl c_tl. simpl c_to.
+    unfold scale_rows at 1. rewrite mget_mk by assumption. rewrite vget_vones by exact Hr.
+    unfold madd. rewrite mget_mk by assumption. unfold mmul. rewrite mget_mk by assumption.
+    rewrite (vsum_ext nin _ (fun l => mget A r l * mget x l a)).
+    - ring.
+    - intros l Hl. unfold scale_rows. rewrite mget_mk by assumption.
+      rewrite vget_vones by exact Hl. ring.
+  Qed.
+
+  Definition dflt_cond : cond := mkC [] [] [] [] [].
+
+  (* ---- dense: A is the FULL Jacobian of g = x_k - f, and A xi + b = g(xi) ---- *)
+  Theorem linearize_dense_ts1 q d (o : @odeP F) damp2 (m : list normal) t :
+    let s := mkShape Dense q d in
+    let K := nth 0 (linearize s o TS1 damp2 m t) dflt_cond in
+    length (linearize s o TS1 damp2 m t) = 1%nat /\
+    (forall r col, r < d -> col < sh_N s ->
+       mget (c_A K) r col = dg_eval s o m t r (col / d) (col mod d)) /\
+    (forall r, r < d ->
+       mget (n_mean (c_apply (sh_N s) d 1 K (n_mean (nth_normal m 0)))) r 0 = g_eval s o m t r) /\
+    c_Q K = noise_cov d damp2.
+  Proof.
+    intros s K. unfold K, linearize. simpl sh_kind. simpl nth.
+    split; [reflexivity|]. split; [|split].
+    - intros r col Hr Hc. unfold from_linop_and_noise. simpl c_A. rewrite mget_mk by assumption.
+      reflexivity.
+    - intros r Hr. rewrite c_apply_from_linop by lia. simpl n_mean.
+      rewrite mget_mk by lia.
+      set (J := mk d (sh_N s) (fun r0 col => dg_eval s o m t r0 (col / d) (col mod d))).
+      rewrite (vsum_ext (sh_N s) (fun l => mget J r l * mget (n_mean (nth_normal m 0)) l 0)
+                        (fun col => mget J r col * coeff s m (col / d) (col mod d))).
+      + ring.
+      + intros l Hl. unfold coeff. simpl sh_kind. simpl sh_d.
+        destruct d as [|d']; [lia|].
+        rewrite (Nat.mul_comm (l / S d')), <- Nat.div_mod by discriminate. reflexivity.
+    - reflexivity.
+  Qed.
+
+  (* TS0: A selects the rows of the k-th derivative, b = - f(xi) *)
+  Theorem linearize_dense_ts0 q d (o : @odeP F) damp2 (m : list normal) t :
+    let s := mkShape Dense q d in
+    let K := nth 0 (linearize s o TS0 damp2 m t) dflt_cond in
+    length (linearize s o TS0 damp2 m t) = 1%nat /\
+    (forall r col, r < d -> col < sh_N s -> mget (c_A K) r col = delta (ode_k o * d + r) col) /\
+    (forall r, r < d -> mget (c_b K) r 0 = - f_eval s o m t r) /\
+    c_Q K = noise_cov d damp2.
+  Proof.
+    intros s K. unfold K, linearize. simpl sh_kind. simpl nth.
+    split; [reflexivity|]. split; [|split].
+    - intros r col Hr Hc. unfold from_linop_and_noise. simpl c_A. rewrite mget_mk by assumption.
+      reflexivity.
+    - intros r Hr. unfold from_linop_and_noise. simpl c_b. rewrite mget_mk by lia. reflexivity.
+    - reflexivity.
+  Qed.
+
+  (* ---- isotropic: A is the trace average over the dimensions ---- *)
+  Theorem linearize_iso_ts1 q d (o : @odeP F) damp2 (m : list normal) t :
+    let s := mkShape Iso q d in
+    let K := nth 0 (linearize s o TS1 damp2 m t) dflt_cond in
+    length (linearize s o TS1 damp2 m t) = 1%nat /\
+    (forall i, i < S q ->
+       mget (c_A K) 0 i = vsum d (fun a => dg_eval s o m t a i a) / fnat d) /\
+    (forall a, a < d ->
+       mget (n_mean (c_apply (S q) 1 d K (n_mean (nth_normal m 0)))) 0 a = g_eval s o m t a) /\
+    c_Q K = noise_cov 1 damp2.
+  Proof.
+    intros s K. unfold K, linearize. simpl sh_kind. simpl nth.
+    split; [reflexivity|]. split; [|split].
+    - intros i Hi. unfold from_linop_and_noise. simpl c_A. rewrite mget_mk by lia. reflexivity.
+    - intros a Ha. rewrite c_apply_from_linop by lia. simpl n_mean. rewrite mget_mk by lia.
+      change (sh_q s) with q. change (sh_d s) with d.
+      set (Hr := mk 1 (S q) (fun _ i => vsum d (fun a0 => dg_eval s o m t a0 i a0) / fnat d)).
+      rewrite (vsum_ext (S q) (fun l => mget Hr 0 l * mget (n_mean (nth_normal m 0)) l a)
+                        (fun i => mget Hr 0 i * coeff s m i a)) by (intros; reflexivity).
+      cbn [vsum]. ring.
+    - reflexivity.
+  Qed.
+
+  Theorem linearize_iso_ts0 q d (o : @odeP F) damp2 (m : list normal) t :
+    let s := mkShape Iso q d in
+    let K := nth 0 (linearize s o TS0 damp2 m t) dflt_cond in
+    length (linearize s o TS0 damp2 m t) = 1%nat /\
+    (forall i, i < S q -> mget (c_A K) 0 i = delta (ode_k o) i) /\
+    (forall a, a < d -> mget (c_b K) 0 a = - f_eval s o m t a) /\
+    c_Q K = noise_cov 1 damp2.
+  Proof.
+    intros s K. unfold K, linearize. simpl sh_kind. simpl nth.
+    split; [reflexivity|]. split; [|split].
+    - intros i Hi. unfold from_linop_and_noise. simpl c_A. rewrite mget_mk by lia. reflexivity.
+    - intros a Ha. unfold from_linop_and_noise. simpl c_b. rewrite mget_mk by lia. reflexivity.
+    - reflexivity.
+  Qed.
+
+  (* ---- block-diagonal: block a carries the per-dimension diagonal entries ---- *)
+  Theorem linearize_blockdiag_ts1 q d (o : @odeP F) damp2 (m : list normal) t a :
+    let s := mkShape BlockDiag q d in
+    let K := nth a (linearize s o TS1 damp2 m t) dflt_cond in
+    a < d ->
+    length (linearize s o TS1 damp2 m t) = d /\
+    (forall i, i < S q -> mget (c_A K) 0 i = dg_eval s o m t a i a) /\
+    mget (n_mean (c_apply (S q) 1 1 K (n_mean (nth_normal m a)))) 0 0 = g_eval s o m t a /\
+    c_Q K = noise_cov 1 damp2.
+  Proof.
+    intros s K Ha. unfold K, linearize. simpl sh_kind. simpl sh_d. simpl sh_q.
+    split; [rewrite map_length, seq_length; reflexivity|].
+    rewrite nth_map_seq by exact Ha. simpl plus.
+    split; [|split].
+    - intros i Hi. unfold from_linop_and_noise. simpl c_A. rewrite mget_mk by lia. reflexivity.
+    - rewrite c_apply_from_linop by lia. simpl n_mean. rewrite mget_mk by lia.
+      set (Hr := mk 1 (S q) (fun _ i => dg_eval s o m t a i a)).
+      rewrite (vsum_ext (S q) (fun l => mget Hr 0 l * mget (n_mean (nth_normal m a)) l 0)
+                        (fun i => mget Hr 0 i * coeff s m i a)) by (intros; reflexivity).
+      cbn [vsum]. ring.
+    - reflexivity.
+  Qed.
+
+  Theorem linearize_blockdiag_ts0 q d (o : @odeP F) damp2 (m : list normal) t a :
+    let s := mkShape BlockDiag q d in
+    let K := nth a (linearize s o TS0 damp2 m t) dflt_cond in
+    a < d ->
+    length (linearize s o TS0 damp2 m t) = d /\
+    (forall i, i < S q -> mget (c_A K) 0 i = delta (ode_k o) i) /\
+    mget (c_b K) 0 0 = - f_eval s o m t a /\
+    c_Q K = noise_cov 1 damp2.
+  Proof.
+    intros s K Ha. unfold K, linearize. simpl sh_kind. simpl sh_d. simpl sh_q.
+    split; [rewrite map_length, seq_length; reflexivity|].
+    rewrite nth_map_seq by exact Ha. simpl plus.
+    split; [|split].
+    - intros i Hi. unfold from_linop_and_noise. simpl c_A. rewrite mget_mk by lia. reflexivity.
+    - unfold from_linop_and_noise. simpl c_b. rewrite mget_mk by lia. reflexivity.
+    - reflexivity.
+  Qed.
+
+  (* the constraint of the TS1 linearisation is the residual x_k - f, and its
+     Jacobian entries are delta - df *)
+  Lemma g_is_residual (s : @shape) (o : @odeP F) (m : list normal) t a :
+    g_eval s o m t a = coeff s m (ode_k o) a - f_eval s o m t a.
+  Proof. reflexivity. Qed.
+  Lemma dg_is_jacobian_of_residual (s : @shape) (o : @odeP F) (m : list normal) t a i b :
+    dg_eval s o m t a i b
+    = (if Nat.eqb i (ode_k o) && Nat.eqb a b then 1 else 0)
+      - (if Nat.ltb i (ode_k o)
+         then eval_poly (ode_env s o m t) (diff_poly (i * sh_d s + b) (nth a (ode_f o) []))
+         else 0).
+  Proof. reflexivity. Qed.
+
+  (* ---- diff_poly is the gradient: the tau-coefficient of p(x + tau h) is
+          sum_v (d p / d x_v)(x) h_v ---- *)
+  Definition line_fs (xv hv : F) : fs := fun n => match n with O => xv | S O => hv | _ => 0 end.
+
+  Lemma fs_sum_at0 (l : list fs) : fs_sum l 0%nat = fold_right (fun a acc => a 0%nat + acc) 0 l.
+  Proof. induction l as [|a l IH]; simpl; [reflexivity|]. unfold fs_add at 1. rewrite IH. reflexivity. Qed.
+
+  Lemma fold_sum_map (g : nat -> fs) (l : list nat) :
+    fold_right (fun (a : fs) acc => a 0%nat + acc) 0 (map g l)
+    = fold_right (fun v acc => g v 0%nat + acc) 0 l.
+  Proof. induction l as [|v l IH]; simpl; [reflexivity|]. rewrite IH. reflexivity. Qed.
+  Lemma fold_sum_ext (g h : nat -> F) (l : list nat) :
+    (forall v, In v l -> g v = h v) ->
+    fold_right (fun v acc => g v + acc) 0 l = fold_right (fun v acc => h v + acc) 0 l.
+  Proof.
+    induction l as [|v l IH]; intro E; simpl; [reflexivity|].
+    rewrite E by (left; reflexivity). rewrite IH by (intros; apply E; right; assumption).
+    reflexivity.
+  Qed.
+
+  Theorem diff_poly_is_directional_derivative (p : poly) (xs hs : list F) :
+    fs_compose (map (fun v => line_fs (nth v xs 0) (nth v hs 0)) (seq 0 (length xs))) p 1%nat
+    = fold_right (fun v acc => eval_poly xs (diff_poly v p) * nth v hs 0 + acc) 0
+                 (seq 0 (length xs)).
+  Proof.
+    set (env := map (fun v => line_fs (nth v xs 0) (nth v hs 0)) (seq 0 (length xs))).
+    assert (Henv0 : map (fun a : nat -> F => a 0%nat) env = xs).
+    { unfold env. rewrite map_map. apply (list_eq_nth 0).
+      - rewrite map_length, seq_length. reflexivity.
+      - intros i Hi. rewrite map_length, seq_length in Hi. rewrite nth_map_seq by exact Hi.
+        reflexivity. }
+    assert (Hlen : length env = length xs) by (unfold env; rewrite map_length, seq_length; reflexivity).
+    assert (E1 : fs_compose env p 1%nat = fs_D (fs_compose env p) 0%nat).
+    { unfold fs_D. rewrite fnat_1. ring. }
+    rewrite E1. rewrite (fs_eq_at _ _ (fs_D_compose env p) 0%nat). rewrite fs_sum_at0.
+    rewrite Hlen, fold_sum_map. apply fold_sum_ext. intros v Hv. apply in_seq in Hv.
+    rewrite fs_mul_at0, fs_compose_at0, Henv0. f_equal.
+    unfold env. rewrite nth_map_seq by lia. unfold fs_D. simpl plus. unfold line_fs.
+    rewrite fnat_1. ring.
+  Qed.
+
+  (* ============== Part 4: the lift computes total time derivatives (T11.1) *)
+  Definition poly_wf (n : nat) (p : poly) : Prop := forall m, In m p -> length (snd m) = n.
+
+  (* ---- re-indexing: k coordinates embedded into K coordinates ---- *)
+  Lemma fs_exps_app (A R : list fs) (E S : list nat) :
+    length A = length E ->
+    fs_exps (A ++ R) (E ++ S) == fs_mul (fs_exps A E) (fs_exps R S).
+  Proof.
+    revert E. induction A as [|x A IH]; intros [|e E] HL; simpl in HL; try discriminate.
+    - simpl app. change (fs_exps [] []) with (@fs_const F _ 1). ring.
+    - simpl app. simpl fs_exps. rewrite IH by lia. ring.
+  Qed.
+  Lemma fs_exps_zeros (B : list fs) n : fs_exps B (repeat 0%nat n) == fs_const 1.
+  Proof.
+    revert n. induction B as [|x B IH]; intro n.
+    - destruct n; reflexivity.
+    - destruct n as [|n]; [reflexivity|]. simpl repeat. simpl fs_exps. rewrite IH. simpl fs_pow. ring.
+  Qed.
+
+  Lemma skipn_last_one {A} (l : list A) n d : length l = S n -> skipn n l = [nth n l d].
+  Proof.
+    revert n. induction l as [|x l IH]; intros n HL; simpl in HL; [discriminate|].
+    destruct n as [|n].
+    - destruct l; [reflexivity|discriminate].
+    - simpl. apply IH. lia.
+  Qed.
+
+  Lemma fs_exps_embed (X B : list fs) (T : fs) k d K es :
+    length X = (k * d)%nat -> length B = ((K - k) * d)%nat -> length es = S (k * d) ->
+    fs_exps (X ++ B ++ [T]) (embed_exps k d K es) == fs_exps (X ++ [T]) es.
+  Proof.
+    intros HX HB Hes. unfold embed_exps.
+    rewrite <- (firstn_skipn (k * d) es) at 3.
+    rewrite (skipn_last_one es (k * d) 0%nat Hes).
+    assert (HE : length X = length (firstn (k * d) es)) by (rewrite firstn_length; lia).
+    rewrite (fs_exps_app X (B ++ [T]) (firstn (k * d) es) _ HE).
+    rewrite (fs_exps_app X [T] (firstn (k * d) es) _ HE).
+    rewrite (fs_exps_app B [T] (repeat 0%nat ((K - k) * d)) _) by (rewrite repeat_length; exact HB).
+    rewrite fs_exps_zeros. ring.
+  Qed.
+
+  Lemma fs_compose_embed (X B : list fs) (T : fs) k d K (p : poly) :
+    length X = (k * d)%nat -> length B = ((K - k) * d)%nat -> poly_wf (S (k * d)) p ->
+    fs_compose (X ++ B ++ [T]) (embed_poly k d K p) == fs_compose (X ++ [T]) p.
+  Proof.
+    intros HX HB Hp. induction p as [|m p IH].
+    - reflexivity.
+    - change (fs_add (fs_scale (fst m) (fs_exps (X ++ B ++ [T]) (embed_exps k d K (snd m))))
+                     (fs_compose (X ++ B ++ [T]) (embed_poly k d K p))
+              == fs_add (fs_scale (fst m) (fs_exps (X ++ [T]) (snd m))) (fs_compose (X ++ [T]) p)).
+      rewrite IH by (intros m' Hm'; apply Hp; right; exact Hm').
+      rewrite (fs_exps_embed X B T k d K (snd m) HX HB) by (apply Hp; left; reflexivity).
+      reflexivity.
+  Qed.
+
+  Lemma curve_env_split k d K (a : nat -> nat -> F) t :
+    k <= K ->
+    exists X B, curve_env k d a t = X ++ [fs_time t] /\
+                curve_env K d a t = X ++ B ++ [fs_time t] /\
+                length X = (k * d)%nat /\ length B = ((K - k) * d)%nat.
+  Proof.
+    intro HK. unfold curve_env.
+    exists (map (fun idx => curve_fs a (idx / d) (idx mod d)) (seq 0 (k * d))),
+           (map (fun idx => curve_fs a (idx / d) (idx mod d)) (seq (k * d) ((K - k) * d))).
+    split; [reflexivity|]. split.
+    - replace (K * d)%nat with (k * d + (K - k) * d)%nat by nia.
+      rewrite seq_app, map_app, <- app_assoc. reflexivity.
+    - rewrite !map_length, !seq_length. split; reflexivity.
+  Qed.
+
+  (* ---- one application of D_t ---- *)
+  (* g involves no coordinate x_{j,.} with c <= j < K *)
+  Definition below (K d c : nat) (g : poly) : Prop :=
+    forall idx, c * d <= idx < K * d -> no_var idx g.
+
+  Lemma fs_sum_app (l1 l2 : list fs) : fs_sum (l1 ++ l2) == fs_add (fs_sum l1) (fs_sum l2).
+  Proof. induction l1 as [|x l1 IH]; simpl; [ring|]. rewrite IH. ring. Qed.
+
+  Lemma no_var_nil idx : no_var idx (@nil (@mono F)).
+  Proof. intros m []. Qed.
+
+  Lemma no_var_diff_any kd j (p : poly) : no_var kd p -> no_var kd (diff_poly j p).
+  Proof.
+    intro Hp. destruct (Nat.eq_dec j kd) as [->|Hne].
+    - rewrite diff_poly_no_var by exact Hp. apply no_var_nil.
+    - apply no_var_diff; assumption.
+  Qed.
+
+  Lemma total_deriv_compose K d (a : nat -> nat -> F) t (g : poly) :
+    1 <= K -> below K d (K - 1) g ->
+    fs_compose (curve_env K d a t) (total_deriv K d g) == fs_D (fs_compose (curve_env K d a t) g).
+  Proof.
+    intros HK Hg.
+    rewrite fs_D_compose, curve_env_length. set (env := curve_env K d a t).
+    unfold total_deriv. rewrite fs_compose_padd.
+    (* the fold over idx < (K-1) d *)
+    assert (Efold : forall (l : list nat),
+               (forall idx, In idx l -> idx < (K - 1) * d) ->
+               fs_compose env
+                 (fold_right (fun idx acc =>
+                     padd (pmul (diff_poly idx g) (pvar (S (K * d)) (idx + d))) acc) [] l)
+               == fs_sum (map (fun v0 => fs_mul (fs_compose env (diff_poly v0 g))
+                                                 (fs_D (nth v0 env (fs_const 0)))) l)).
+    { induction l as [|idx l IH]; intro Hl.
+      - simpl. reflexivity.
+      - simpl fold_right. simpl map. simpl fs_sum.
+        rewrite fs_compose_padd, fs_compose_pmul, IH by (intros; apply Hl; right; assumption).
+        assert (Hidx : idx < (K - 1) * d) by (apply Hl; left; reflexivity).
+        assert (Hd : d <> 0%nat) by (intro E; rewrite E, Nat.mul_0_r in Hidx; lia).
+        rewrite fs_compose_pvar by (unfold env; rewrite curve_env_length; nia).
+        unfold env. rewrite !curve_env_nth by nia. rewrite <- curve_fs_S.
+        replace ((idx + d) / d)%nat with (S (idx / d)).
+        2:{ replace (idx + d)%nat with (idx + 1 * d)%nat by lia. rewrite Nat.div_add by exact Hd. lia. }
+        replace ((idx + d) mod d)%nat with (idx mod d)%nat.
+        2:{ replace (idx + d)%nat with (idx + 1 * d)%nat by lia. rewrite Nat.mod_add by exact Hd. reflexivity. }
+        reflexivity. }
+    rewrite Efold by (intros idx Hidx; apply in_seq in Hidx; lia).
+    (* split the chain-rule sum *)
+    rewrite seq_S, map_app, fs_sum_app, Nat.add_0_l.
+    assert (Eseq : seq 0 (K * d) = seq 0 ((K - 1) * d) ++ seq ((K - 1) * d) d).
+    { rewrite <- (Nat.add_0_l ((K - 1) * d)) at 2. rewrite <- seq_app. f_equal. nia. }
+    rewrite Eseq, map_app, fs_sum_app.
+    (* the block of the top coordinate vanishes *)
+    rewrite (fs_sum_ext (fun v0 => fs_mul (fs_compose env (diff_poly v0 g)) (fs_D (nth v0 env (fs_const 0))))
+                        (fun _ => fs_const 0) (seq ((K - 1) * d) d)).
+    2:{ intros v0 Hv0. apply in_seq in Hv0.
+        rewrite (diff_poly_no_var v0 g) by (apply Hg; nia).
+        change (fs_compose env []) with (@fs_const F _ 0). ring. }
+    rewrite fs_sum_zero.
+    (* the time term *)
+    simpl map. simpl fs_sum.
+    assert (Etime : fs_D (nth (K * d) env (fs_const 0)) == fs_const 1).
+    { unfold env, curve_env. rewrite app_nth2 by (rewrite map_length, seq_length; lia).
+      rewrite map_length, seq_length, Nat.sub_diag. simpl nth. apply fs_D_time. }
+    rewrite Etime. ring.
+  Qed.
+
+  Lemma below_weaken K d c c' (g : poly) : c <= c' -> below K d c g -> below K d c' g.
+  Proof. intros Hc Hg idx Hidx. apply Hg. nia. Qed.
+
+  Lemma pmul_nil_l (q : poly) : pmul [] q = [].
+  Proof. reflexivity. Qed.
+
+  Lemma total_deriv_below K d c (g : poly) :
+    below K d c g -> below K d (S c) (total_deriv K d g).
+  Proof.
+    intros Hg idx' Hidx'. unfold total_deriv. apply no_var_padd.
+    - apply no_var_diff_any. apply Hg. nia.
+    - assert (E : forall l, no_var idx'
+                    (fold_right (fun idx acc =>
+                        padd (pmul (diff_poly idx g) (pvar (S (K * d)) (idx + d))) acc) [] l)).
+      { induction l as [|idx l IH]; [apply no_var_nil|].
+        simpl. apply no_var_padd; [|exact IH].
+        destruct (Nat.lt_ge_cases idx (c * d)) as [Hlt|Hge].
+        - apply no_var_pmul.
+          + apply no_var_diff_any. apply Hg. nia.
+          + apply no_var_pvar. nia.
+        - destruct (Nat.lt_ge_cases idx (K * d)) as [Hlt2|Hge2].
+          + rewrite (diff_poly_no_var idx g) by (apply Hg; nia). rewrite pmul_nil_l. apply no_var_nil.
+          + apply no_var_pmul.
+            * apply no_var_diff_any. apply Hg. nia.
+            * apply no_var_pvar. nia. }
+      apply E.
+  Qed.
+
+  #[local] Instance fs_Dn_proper l : Proper (fs_eq ==> fs_eq) (fs_Dn l).
+  Proof.
+    intros x y E. induction l as [|l IH]; simpl; [exact E|]. rewrite IH. reflexivity.
+  Qed.
+
+  Lemma total_deriv_n_invariant K d k (a : nat -> nat -> F) t (g0 : poly) l :
+    below K d k g0 -> k + l <= K ->
+    below K d (k + l) (total_deriv_n K d l g0) /\
+    fs_compose (curve_env K d a t) (total_deriv_n K d l g0)
+    == fs_Dn l (fs_compose (curve_env K d a t) g0).
+  Proof.
+    intros Hg0. induction l as [|l IH]; intro HlK.
+    - rewrite Nat.add_0_r. split; [exact Hg0|reflexivity].
+    - destruct IH as [IHb IHc]; [lia|]. simpl total_deriv_n. split.
+      + replace (k + S l)%nat with (S (k + l)) by lia. apply total_deriv_below. exact IHb.
+      + rewrite total_deriv_compose; [|lia|].
+        * simpl fs_Dn. rewrite IHc. reflexivity.
+        * apply (below_weaken K d (k + l)); [lia|exact IHb].
+  Qed.
+
+  Lemma embed_below k d K (p : poly) :
+    poly_wf (S (k * d)) p -> below K d k (embed_poly k d K p).
+  Proof.
+    intros Hp idx Hidx m Hm. unfold embed_poly in Hm. apply in_map_iff in Hm.
+    destruct Hm as [m0 [<- Hm0]]. simpl snd. unfold embed_exps.
+    assert (Hl : length (firstn (k * d) (snd m0)) = (k * d)%nat)
+      by (rewrite firstn_length, (Hp m0 Hm0); lia).
+    rewrite app_nth2 by lia. rewrite Hl.
+    rewrite app_nth1 by (rewrite repeat_length; nia).
+    apply nth_repeat.
+  Qed.
+
+  (* ---- assembling T11.1 ---- *)
+  (* the curve whose Taylor coefficients are the supplied derivative vectors *)
+  Definition coeffs_of (tcs : list tvec) : nat -> nat -> F :=
+    fun n b => vget (nth n tcs []) b / ffact n.
+
+  Lemma coeffs_good (tcs : list tvec) d :
+    (forall j, j < length tcs -> length (nth j tcs []) = d) ->
+    forall n, n < length tcs -> nth n tcs [] = dvec (coeffs_of tcs) d n.
+  Proof.
+    intros Hd n Hn. rewrite (list_as_map_vget (nth n tcs []) d (Hd n Hn)) at 1.
+    unfold dvec, coeffs_of. apply map_ext. intro b. field. apply ffact_neq0.
+  Qed.
+
+  Lemma lift_key k d m (tcs : list tvec) t (p : poly) l :
+    length tcs = (k + m)%nat -> (forall j, j < length tcs -> length (nth j tcs []) = d) ->
+    poly_wf (S (k * d)) p -> l <= m ->
+    ffact l * fs_compose (curve_env k d (coeffs_of tcs) t) p l
+    = eval_poly (concat tcs ++ [t]) (total_deriv_n (k + m) d l (embed_poly k d (k + m) p)).
+  Proof.
+    intros HL Hd Hp Hl. set (K := (k + m)%nat). set (a := coeffs_of tcs).
+    assert (Hat0 : map (fun s : fs => s 0%nat) (curve_env K d a t) = concat tcs ++ [t]).
+    { apply (curve_env_at0 K d a t tcs); [exact HL|].
+      intros j Hj. apply coeffs_good; [exact Hd|lia]. }
+    unfold vf_env in Hat0. rewrite <- Hat0.
+    rewrite <- (fs_compose_at0 (curve_env K d a t)).
+    destruct (total_deriv_n_invariant K d k a t (embed_poly k d K p) l) as [_ Hc].
+    - apply embed_below. exact Hp.
+    - unfold K. lia.
+    - rewrite (fs_eq_at _ _ Hc 0%nat). rewrite fs_Dn_rise, rise_0. simpl plus.
+      destruct (curve_env_split k d K a t) as [X [B [Ek [EK [HX HB]]]]]; [unfold K; lia|].
+      rewrite EK, Ek.
+      rewrite (fs_eq_at _ _ (fs_compose_embed X B (fs_time t) k d K p HX HB Hp) l).
+      reflexivity.
+  Qed.
+
+  Lemma plain_env_at0 d (pu : list tvec) t :
+    (forall x, In x pu -> length x = d) ->
+    map (fun s : series => sget s 0) (plain_env d pu t) = concat pu ++ [t].
+  Proof.
+    intro Hd. unfold plain_env. rewrite map_app. simpl map at 2. f_equal.
+    induction pu as [|x pu IH]; [reflexivity|].
+    simpl flat_map. rewrite map_app, map_map. simpl concat. f_equal.
+    - symmetry. apply (list_as_map_vget x d). apply Hd. left. reflexivity.
+    - apply IH. intros y Hy. apply Hd. right. exact Hy.
+  Qed.
+
+  Lemma lift_eq (jf : jetfun) lift_by (coords : list tvec) t :
+    1 <= jf_k jf -> lift_accepts (jf_k jf) (length coords) lift_by = true ->
+    lift jf lift_by coords t
+    = let tcs := firstn (jf_k jf + Z.to_nat lift_by) coords in
+      let '((pu, pt), (su, st)) := args_aj tcs (jf_k jf) t in
+      match nth 0 su [] with
+      | [] => Some [run_plain jf pu pt]
+      | _ :: _ => run_jet jf pu pt su st
+      end.
+  Proof. intros Hk Hacc. unfold lift. rewrite Hacc. destruct (jf_k jf); [lia|reflexivity]. Qed.
+
+  (* T11.1 *)
+  Theorem lift_is_total_derivative (k d : nat) (ps : list poly) (m : nat)
+          (coords : list tvec) (t : F) :
+    1 <= k -> k + m <= length coords ->
+    (forall j, j < k + m -> length (nth j coords []) = d) ->
+    (forall p, In p ps -> poly_wf (S (k * d)) p) ->
+    lift (jf_of_polys k d ps) (Z.of_nat m) coords t = Some (lift_spec k d ps m coords t).
+  Proof.
+    intros Hk HL Hd Hps.
+    assert (Hacc : lift_accepts k (length coords) (Z.of_nat m) = true)
+      by (apply P_lift_accepts_iff; lia).
+    rewrite lift_eq by assumption. cbv zeta. change (jf_k (jf_of_polys k d ps)) with k.
+    rewrite Nat2Z.id. set (tcs := firstn (k + m) coords).
+    assert (HLt : length tcs = (k + m)%nat) by (unfold tcs; rewrite firstn_length; lia).
+    assert (Hdt : forall j, j < length tcs -> length (nth j tcs []) = d).
+    { intros j Hj. unfold tcs. rewrite nth_firstn_lt by lia. apply Hd. lia. }
+    set (a := coeffs_of tcs).
+    assert (Hgood : good_upto a d (k + m - 1) tcs).
+    { intros n Hn. apply coeffs_good; [exact Hdt|lia]. }
+    unfold args_aj. cbv zeta.
+    set (su := map (fun j => pyslice j (k - 1 - j) (tl tcs)) (seq 0 k)).
+    assert (Hsu0 : length (nth 0 su []) = m).
+    { unfold su. rewrite nth_map_seq by lia. rewrite pyslice_length, length_tl. lia. }
+    unfold lift_spec. fold tcs.
+    destruct (nth 0 su []) as [|x0 r0] eqn:E0.
+    - (* no series: direct call *)
+      simpl in Hsu0. subst m. cbn [seq map]. f_equal. f_equal.
+      unfold run_plain, jf_of_polys. cbn [jf_body jf_d]. rewrite map_map.
+      apply map_ext_in. intros p Hp.
+      rewrite (sget_scompose 1) by lia.
+      rewrite fs_compose_at0, map_map.
+      rewrite (plain_env_at0 d (firstn k tcs) t).
+      2:{ intros x Hx. apply In_nth with (d := []) in Hx. destruct Hx as [j [Hj <-]].
+          rewrite firstn_length in Hj. rewrite nth_firstn_lt by lia. apply Hdt. lia. }
+      pose proof (lift_key k d 0 tcs t p 0 HLt Hdt (Hps p Hp) (le_n 0)) as Hkey.
+      rewrite <- Hkey. simpl ffact.
+      rewrite (fs_compose_at0 (curve_env k d (coeffs_of tcs) t)).
+      rewrite (curve_env_at0 k d (coeffs_of tcs) t (firstn k tcs)).
+      + unfold vf_env. ring.
+      + rewrite firstn_length. lia.
+      + intros j Hj. rewrite nth_firstn_lt by exact Hj. apply coeffs_good; [exact Hdt|lia].
+    - (* jet *)
+      assert (Hm1 : 1 <= m) by (simpl in Hsu0; lia).
+      unfold run_jet. rewrite <- E0. rewrite <- E0 in Hsu0.
+      set (st := 1 :: repeat 0 (length (nth 0 su []) - 1)).
+      assert (Hst : length st = m) by (unfold st; simpl; rewrite repeat_length, Hsu0; lia).
+      rewrite Hst.
+      assert (Hchk : forallb (fun s => Nat.eqb (length s) m) su
+                     && Nat.eqb (length (firstn k tcs)) (length su) = true).
+      { apply andb_true_iff. split.
+        - apply forallb_forall. intros s Hs. unfold su in Hs. apply in_map_iff in Hs.
+          destruct Hs as [j [<- Hj]]. apply in_seq in Hj. apply Nat.eqb_eq.
+          rewrite pyslice_length, length_tl. lia.
+        - apply Nat.eqb_eq. unfold su. rewrite firstn_length, map_length, seq_length. lia. }
+      rewrite Hchk. f_equal. apply map_ext_in. intros l Hl. apply in_seq in Hl.
+      unfold jf_of_polys. cbn [jf_body jf_d]. rewrite !map_map.
+      apply map_ext_in. intros p Hp.
+      rewrite sget_to_deriv by (rewrite scompose_length; lia).
+      rewrite (sget_scompose (S m)) by lia.
+      rewrite <- (lift_key k d m tcs t p l HLt Hdt (Hps p Hp)) by lia. f_equal.
+      apply (fs_compose_agreeN (S l)); [|lia].
+      unfold st. rewrite Hsu0. unfold su. replace (m - 1)%nat with (length tcs - k - 1)%nat by lia.
+      apply (jet_env_agreeN (coeffs_of tcs) k d tcs t (k + m - 1)); try assumption; lia.
+  Qed.
+End LiftProofs.
+
+Section ResidualLift.
+  Context {F : Type} `{FL : FieldLaws F}.
+  Local Open Scope F_scope.
+  Add Field FLift2 : fth.
+  Local Notation series := (@series F).
+  Local Notation tvec := (list F).
+  Local Notation jetfun := (@jetfun F).
+
+  (* ---- T11.3 (lift): lifting residual_from_ode(ode) = lifting both parts ---- *)
+  Lemma sget_to_deriv_any (a : series) l : sget (to_deriv a) l = ffact l * sget a l.
+  Proof.
+    destruct (Nat.lt_ge_cases l (length a)) as [Hl|Hl].
+    - apply sget_to_deriv. exact Hl.
+    - unfold to_deriv. rewrite sget_mkv_out by exact Hl.
+      unfold sget. rewrite nth_overflow by exact Hl. ring.
+  Qed.
+
+  Lemma flat_map_ext_in' {A B} (g h : A -> list B) l :
+    (forall x, In x l -> g x = h x) -> flat_map g l = flat_map h l.
+  Proof.
+    induction l as [|x l IH]; intro E; simpl; [reflexivity|].
+    rewrite (E x) by (left; reflexivity). rewrite IH by (intros; apply E; right; assumption).
+    reflexivity.
+  Qed.
+
+  Lemma zipw_map_same {A B C D} (h : B -> C -> D) (g1 : A -> B) (g2 : A -> C) l :
+    zipw h (map g1 l) (map g2 l) = map (fun x => h (g1 x) (g2 x)) l.
+  Proof. induction l as [|x l IH]; simpl; [reflexivity|]. rewrite IH. reflexivity. Qed.
+
+  (* entry i of the derivative list handed to jet for the coordinate j, component b *)
+  Lemma sget_coord_series (tc : list tvec) j drop b i :
+    i <= length tc - 1 - drop - j ->
+    sget (vget (nth j tc []) b :: map (fun c : list F => vget c b) (pyslice j drop (tl tc))) i
+    = vget (nth (j + i) tc []) b.
+  Proof.
+    intro Hi. destruct i as [|i].
+    - rewrite Nat.add_0_r. reflexivity.
+    - change (sget (vget (nth j tc []) b :: map (fun c : list F => vget c b) (pyslice j drop (tl tc))) (S i))
+        with (nth i (map (fun c : list F => vget c b) (pyslice j drop (tl tc))) 0).
+      rewrite (nth_indep _ 0 (vget [] b)) by (rewrite map_length, pyslice_length, length_tl; lia).
+      rewrite (map_nth (fun c : list F => vget c b)).
+      rewrite pyslice_nth by (rewrite length_tl; lia).
+      rewrite nth_tl. replace (S (j + i)) with (j + S i)%nat by lia. reflexivity.
+  Qed.
+
+  Lemma run_plain_residual (o : jetfun) (coords : list tvec) (t : F) :
+    length coords = S (jf_k o) ->
+    run_plain (residual_from_ode_jf o) coords t
+    = vsub_ (vhead (jf_d o) (nth (jf_k o) coords [])) (run_plain o (firstn (jf_k o) coords) t).
+  Proof.
+    intro HL. pose proof (residual_from_ode_value o coords t HL) as E.
+    unfold jf_eval in E. simpl jf_k in E. rewrite HL, Nat.eqb_refl in E. inversion E. reflexivity.
+  Qed.
+
+  (* the series of the first k coordinates do not depend on whether k or k+1
+     coordinates are being reordered *)
+  Lemma pyslice_shift (coords : list tvec) k m j :
+    j < k -> k + 1 + m <= length coords ->
+    pyslice j (k - j) (tl (firstn (k + 1 + m) coords))
+    = pyslice j (k - 1 - j) (tl (firstn (k + m) coords)).
+  Proof.
+    intros Hj HL. apply (list_eq_nth []).
+    - rewrite !pyslice_length, !length_tl, !firstn_length. lia.
+    - intros i Hi. rewrite pyslice_length, length_tl, firstn_length in Hi.
+      rewrite !pyslice_nth by (rewrite length_tl, firstn_length; lia).
+      rewrite !nth_tl. rewrite !nth_firstn_lt by lia. reflexivity.
+  Qed.
+
+  Theorem residual_lift_is_lift_of_parts (o : jetfun) (m : nat) (coords : list tvec) (t : F)
+          (outs : list (list F)) :
+    1 <= jf_k o -> jf_k o + 1 + m <= length coords ->
+    lift o (Z.of_nat m) coords t = Some outs ->
+    lift (residual_from_ode_jf o) (Z.of_nat m) coords t
+    = Some (zipw vsub_ (map (fun l => vhead (jf_d o) (nth (jf_k o + l) coords [])) (seq 0 (S m)))
+                 outs).
+  Proof.
+    intros Hk HL Ho. set (k := jf_k o) in *. set (d := jf_d o).
+    assert (Hacc : lift_accepts k (length coords) (Z.of_nat m) = true)
+      by (apply P_lift_accepts_iff; lia).
+    assert (Hacc' : lift_accepts (S k) (length coords) (Z.of_nat m) = true)
+      by (apply P_lift_accepts_iff; lia).
+    rewrite lift_eq in Ho by assumption. rewrite lift_eq by (simpl; try lia; exact Hacc').
+    cbv zeta in *. change (jf_k (residual_from_ode_jf o)) with (S k). fold k in Ho.
+    rewrite Nat2Z.id in *.
+    replace (S k + m)%nat with (k + 1 + m)%nat by lia.
+    set (tcs := firstn (k + m) coords) in *. set (tcs' := firstn (k + 1 + m) coords).
+    assert (HLt : length tcs = (k + m)%nat) by (unfold tcs; rewrite firstn_length; lia).
+    assert (HLt' : length tcs' = (k + 1 + m)%nat) by (unfold tcs'; rewrite firstn_length; lia).
+    unfold args_aj in *. cbv zeta in *.
+    set (su := map (fun j => pyslice j (k - 1 - j) (tl tcs)) (seq 0 k)) in *.
+    set (su' := map (fun j => pyslice j (S k - 1 - j) (tl tcs')) (seq 0 (S k))).
+    assert (Hsu0 : length (nth 0 su []) = m).
+    { unfold su. rewrite nth_map_seq by lia. rewrite pyslice_length, length_tl. lia. }
+    assert (Hsu0' : length (nth 0 su' []) = m).
+    { unfold su'. rewrite nth_map_seq by lia. rewrite pyslice_length, length_tl. lia. }
+    assert (Efirst : firstn k (firstn (S k) tcs') = firstn k tcs).
+    { unfold tcs, tcs'. rewrite !firstn_firstn. f_equal. lia. }
+    assert (Ektop : forall l, l <= m -> nth (k + l) tcs' [] = nth (k + l) coords []).
+    { intros l Hl. unfold tcs'. apply nth_firstn_lt. lia. }
+    destruct (nth 0 su []) as [|x0 r0] eqn:E0; destruct (nth 0 su' []) as [|x0' r0'] eqn:E0';
+      try (simpl in Hsu0, Hsu0'; lia).
+    - (* m = 0: direct calls *)
+      simpl in Hsu0. subst m. inversion Ho; subst outs. cbn [seq map zipw]. f_equal. f_equal.
+      rewrite run_plain_residual by (rewrite firstn_length; lia).
+      change (jf_k o) with k. change (jf_d o) with d. rewrite Efirst.
+      rewrite nth_firstn_lt by lia. rewrite Nat.add_0_r. unfold tcs'. rewrite nth_firstn_lt by lia. reflexivity.
+    - (* jet *)
+      rewrite Hsu0 in Ho. rewrite Hsu0'.
+      assert (Hm1 : 1 <= m) by (simpl in Hsu0; lia).
+      set (st := 1 :: repeat 0 (m - 1)) in *.
+      assert (Hst : length st = m) by (unfold st; simpl; rewrite repeat_length; lia).
+      unfold run_jet in *. rewrite Hst in *.
+      assert (Hchk : forallb (fun s => Nat.eqb (length s) m) su
+                     && Nat.eqb (length (firstn k tcs)) (length su) = true).
+      { apply andb_true_iff. split.
+        - apply forallb_forall. intros s0 Hs. unfold su in Hs. apply in_map_iff in Hs.
+          destruct Hs as [j [<- Hj]]. apply in_seq in Hj. apply Nat.eqb_eq.
+          rewrite pyslice_length, length_tl. lia.
+        - apply Nat.eqb_eq. unfold su. rewrite firstn_length, map_length, seq_length. lia. }
+      assert (Hchk' : forallb (fun s => Nat.eqb (length s) m) su'
+                      && Nat.eqb (length (firstn (S k) tcs')) (length su') = true).
+      { apply andb_true_iff. split.
+        - apply forallb_forall. intros s0 Hs. unfold su' in Hs. apply in_map_iff in Hs.
+          destruct Hs as [j [<- Hj]]. apply in_seq in Hj. apply Nat.eqb_eq.
+          rewrite pyslice_length, length_tl. lia.
+        - apply Nat.eqb_eq. unfold su'. rewrite firstn_length, map_length, seq_length. lia. }
+      rewrite Hchk in Ho. rewrite Hchk'. injection Ho as Houts. f_equal.
+      (* the environment of the residual = (X ++ Y ++ [T]) with X ++ [T] the ODE's *)
+      set (T := to_norm (t :: st)).
+      set (blk := fun (tc : list tvec) (sl : nat -> list tvec) (j : nat) =>
+                    map (fun b => to_norm (vget (nth j tc []) b :: map (fun c : list F => vget c b) (sl j)))
+                        (seq 0 d)).
+      assert (Eenv : jet_env d (firstn k tcs) t su st
+                     = flat_map (blk tcs (fun j => pyslice j (k - 1 - j) (tl tcs))) (seq 0 k) ++ [T]).
+      { unfold jet_env, su. rewrite (combine_firstn_map_seq tcs _ []) by lia.
+        rewrite flat_map_map. reflexivity. }
+      assert (Eenv' : jet_env d (firstn (S k) tcs') t su' st
+                      = flat_map (blk tcs' (fun j => pyslice j (S k - 1 - j) (tl tcs'))) (seq 0 (S k)) ++ [T]).
+      { unfold jet_env, su'. rewrite (combine_firstn_map_seq tcs' _ []) by lia.
+        rewrite flat_map_map. reflexivity. }
+      set (X := flat_map (blk tcs (fun j => pyslice j (k - 1 - j) (tl tcs))) (seq 0 k)) in *.
+      set (Y := blk tcs' (fun j => pyslice j (S k - 1 - j) (tl tcs')) k).
+      assert (EX : flat_map (blk tcs' (fun j => pyslice j (S k - 1 - j) (tl tcs'))) (seq 0 (S k))
+                   = X ++ Y).
+      { rewrite seq_S, flat_map_app. cbn [flat_map]. rewrite app_nil_r. f_equal.
+        unfold X. apply flat_map_ext_in'. intros j Hj. apply in_seq in Hj.
+        unfold blk. apply map_ext. intro b.
+        replace (S k - 1 - j)%nat with (k - j)%nat by lia.
+        unfold tcs', tcs. rewrite pyslice_shift by lia.
+        rewrite !nth_firstn_lt by lia. reflexivity. }
+      rewrite EX in Eenv'.
+      assert (HX : length X = (k * d)%nat).
+      { unfold X. rewrite (flat_map_length_const _ _ d), seq_length; [reflexivity|].
+        intro j. unfold blk. rewrite map_length, seq_length. reflexivity. }
+      assert (HY : length Y = d) by (unfold Y, blk; rewrite map_length, seq_length; reflexivity).
+      cbn [jf_body jf_d residual_from_ode_jf]. fold k d. fold d in Houts.
+      rewrite Eenv'. rewrite Eenv in Houts.
+      rewrite <- (app_assoc X Y [T]).
+      rewrite (skipn_app_exact X _ _ HX).
+      rewrite (firstn_app_exact Y _ _ HY).
+      rewrite (firstn_app_exact X _ _ HX).
+      rewrite (app_assoc X Y).
+      rewrite (skipn_app_exact (X ++ Y) _ (S k * d)) by (rewrite app_length, HX, HY; lia).
+      set (B := jf_body o (S m) (X ++ [T])) in *.
+      rewrite <- Houts. clear Houts.
+      (* order by order *)
+      change (map (fun o0 : series => sget o0 0) (map to_deriv B)
+              :: map (fun l => map (fun o0 : series => sget o0 l) (map to_deriv B)) (seq 1 m))
+        with (map (fun l => map (fun o0 : series => sget o0 l) (map to_deriv B)) (seq 0 (S m))).
+      rewrite zipw_map_same. apply map_ext_in. intros l Hl. apply in_seq in Hl.
+      rewrite !map_map, map_zipw. unfold vsub_, vhead, Y, blk.
+      rewrite !zipw_map_l, zipw_map_r. apply zipw_ext. intros b bb _ _.
+      rewrite !sget_to_deriv_any. rewrite (sget_ssub (S m)) by lia. unfold fs_sub.
+      rewrite sget_to_norm by (cbn [length]; rewrite map_length, pyslice_length, length_tl; lia).
+      rewrite sget_coord_series by lia.
+      rewrite Ektop by lia. field. apply ffact_neq0.
+  Qed.
+End ResidualLift.
+
+(* ================================================= Examples (satisfiability) *)
+Definition qcl (n : Z) (d : positive) : Qc := Q2Qc (n # d).
+(* f(u, u', t) = u * u' * t + t^2 (k = 2, d = 1): variables (x0, x1, t) *)
+Definition ex_polys : list (@poly Qc) := [[ (qcl 1 1, [1; 1; 1]); (qcl 1 1, [0; 0; 2]) ]].
+Definition ex_coords : list (list Qc) := [[qcl 1 2]; [qcl (-1) 1]; [qcl 3 4]; [qcl 2 1]].
+
+Example ex_lift_hypotheses :
+  (1 <= 2)%nat /\ (2 + 2 <= length ex_coords)%nat /\
+  (forall j, (j < 2 + 2)%nat -> length (nth j ex_coords []) = 1%nat) /\
+  (forall p, In p ex_polys -> poly_wf (S (2 * 1)) p).
+Proof.
+  split; [lia|]. split; [simpl; lia|]. split.
+  - intros j Hj. destruct j as [|[|[|[|j]]]]; try reflexivity. lia.
+  - intros p [<-|[]] m [<-|[<-|[]]]; reflexivity.
+Qed.
+
+(* f, D_t f, D_t^2 f at (1/2, -1, 3/4, 2; t = 1/4):
+   f = -1/16;  D_t f = u'^2 t + u u'' t + u u' + 2t = 11/32;  D_t^2 f = 2 + u'^2 + u u'' + (u' + u'' t) u' + (u + 2 u' t) u'' + u t u''' = 71/16 *)
+Example ex_lift_values :
+  match lift (jf_of_polys 2 1 ex_polys) 2%Z ex_coords (qcl 1 4) with
+  | Some l => map (map (fun x : Qc => this x)) l = [[-1 # 16]; [11 # 32]; [71 # 16]]%Q
+  | None => False
+  end.
+Proof. vm_compute. reflexivity. Qed.
+
+Example ex_lift_rejects :
+  lift (jf_of_polys 2 1 ex_polys) 3%Z ex_coords (qcl 1 4) = None /\
+  lift (jf_of_polys 2 1 ex_polys) (-1)%Z ex_coords (qcl 1 4) = None.
+Proof. split; reflexivity. Qed.
